@@ -65,6 +65,9 @@ class C10(E1Check):
                     continue
                 for q in (1, 2):
                     progs.append({"plan": plan, "subs": [dict(s, q=q)], "wait": None})
+                if s["sigs"] == "a0" and s["filter"] in ("all", "even") and plan in ("one-disp", "burst", "two-disp") and s["k"] >= 1:
+                    # an unbuffered subscription: an event is accepted exactly when the consumer is waiting for it
+                    progs.append({"plan": plan, "subs": [dict(s, q=0)], "wait": None})
         # two subscribers
         light = [s for s in subs1 if s["k"] in (1, 2) and s["filter"] in ("all", "even") and s["sigs"] in ("a0", "a0b0")]
         for plan in ("one-disp", "burst"):
@@ -361,6 +364,10 @@ class C10(E1Check):
                     unsure = True
                 if spec["filter"] != "none" and not st.get("unattributed"):
                     backlog = len(accepted) - sum(1 for x in pulled_idx if x < j)
+                    # the consumer is parked in its receive with nothing buffered: the event is handed to it directly, whatever the queue size
+                    last = next((e2[0] for e2 in reversed(tr[:j]) if e2[0] in ("sub-recv", "sub-got") and e2[1] == i), None)
+                    if warned and backlog == 0 and last == "sub-recv" and not in_limbo:
+                        fail("overflow", f"subscriber {i} (queue {spec['q']}) lost event {n} although it was waiting for an event with nothing buffered")
                     if warned and backlog < spec["q"] and not in_limbo:
                         fail("overflow", f"subscriber {i} (queue {spec['q']}) lost event {n} with a backlog of only {backlog}")
                     if not warned and backlog > spec["q"] and not in_limbo:
